@@ -94,6 +94,7 @@ type botSim struct {
 	handlers  []handlerCfg
 	batches   []int // registration batch sizes
 	failAt    int   // global invocation index at which the handler fails (-1 never)
+	resume    bool  // after a PacketHandlerError the bot calls HandleGame again (as the example bots do)
 	quiesce   map[int]bool
 	link      *simnet.Link
 	refuse    bool
@@ -106,6 +107,7 @@ type botSim struct {
 	joinErr      error
 	joined       bool
 	gameErr      error
+	handlerErr   error // what the first HandleGame call returned (resume mode)
 	gameReturned bool
 	cliName      string
 	cliUUID      uuid.UUID
@@ -304,23 +306,53 @@ func drawBot(tp *tape.Tape, idx int, threshold int, names map[string]bool) *botS
 	}
 	if tp.Bool(1, 5) && nS > 0 {
 		b.failAt = tp.Choose((2 + nGen/2) * nS)
+		b.resume = tp.Bool(1, 2)
 	}
 	b.configExt = tp.Choose(3)
 	return b
 }
 
-// expectedReplies lists, in order, the payload sums the replying handlers will
-// send back for the whole server->bot script.
-func (b *botSim) expectedReplies() []uint64 {
-	var out []uint64
-	for _, s := range b.s2c {
+// expInv is one expected handler invocation.
+type expInv struct {
+	h      int
+	pkt    int
+	bundle int
+}
+
+// expected is the reference dispatch: the concatenation over the script of
+// each packet's handler order. A handler failure (failAt) ends it - or, when
+// the bot resumes HandleGame after the PacketHandlerError, skips the remaining
+// handlers of that packet and the rest of its bundle (the bundle had been
+// read completely before dispatch started) and continues with the next packet.
+// replies lists the payload sums the replying handlers send back.
+func (b *botSim) expected() (log []expInv, replies []uint64, failed bool) {
+	skipBundle := -1
+	for k, s := range b.s2c {
+		if skipBundle >= 0 && s.bundle == skipBundle {
+			continue
+		}
+		skipBundle = -1
 		for _, h := range b.expectedOrder(s.id) {
+			log = append(log, expInv{h, k, s.bundle})
+			if len(log)-1 == b.failAt {
+				failed = true
+				if !b.resume {
+					return
+				}
+				skipBundle = s.bundle
+				break
+			}
 			if b.handlers[h].reply {
-				out = append(out, sum(s.data))
+				replies = append(replies, sum(s.data))
 			}
 		}
 	}
-	return out
+	return
+}
+
+func (b *botSim) expectedReplies() []uint64 {
+	_, r, _ := b.expected()
+	return r
 }
 
 // expected handler order for a packet id (indices into b.handlers): generic
@@ -604,6 +636,13 @@ func (b *botSim) setJoined(name string, id uuid.UUID) {
 //go:norace
 func (b *botSim) setGame(err error) { b.gameErr, b.gameReturned = err, true }
 
+//go:norace
+func (b *botSim) setHandlerErr(err error) {
+	if b.handlerErr == nil {
+		b.handlerErr = err
+	}
+}
+
 type statusState struct {
 	json []byte
 	err  error
@@ -742,7 +781,7 @@ func scenarioWorld(c *harness.Ctx) {
 			layout = append(layout, s.bundle)
 		}
 		c.Config[fmt.Sprintf("bot%d", b.idx)] = map[string]any{"bundle_layout": layout, "quiesce": fmt.Sprint(b.quiesce), "name": b.name, "linked_queue": b.linked, "s2c": len(b.s2c), "c2s": len(b.c2s),
-			"handlers": prios, "batches": b.batches, "fail_at": b.failAt, "refuse": b.refuse}
+			"handlers": prios, "batches": b.batches, "fail_at": b.failAt, "resume": b.resume, "refuse": b.refuse}
 	}
 
 	var (
@@ -938,7 +977,20 @@ func scenarioWorld(c *harness.Ctx) {
 						}
 					}
 				})
-				b.setGame(client.HandleGame())
+				gerr := client.HandleGame()
+				if b.resume {
+					// the example bots' loop: a handler's error is reported and the
+					// game goes on
+					for n := 0; n < 4; n++ {
+						var he bot.PacketHandlerError
+						if !errors.As(gerr, &he) {
+							break
+						}
+						b.setHandlerErr(gerr)
+						gerr = client.HandleGame()
+					}
+				}
+				b.setGame(gerr)
 				swg.Wait()
 				client.Close()
 			})
@@ -991,23 +1043,13 @@ func scenarioWorld(c *harness.Ctx) {
 			c.Fail("gate.identity", "protocol", "mismatch", "%s: server got protocol %d, the bot speaks %d", tag, b.accProto, bot.ProtocolVersion)
 			return
 		}
-		// reference dispatch: concatenation over the script of the expected handler order
-		type exp struct {
-			h      int
-			pkt    int
-			bundle int
+		// reference dispatch
+		expLog, _, failed := b.expected()
+		stopped := failed && !b.resume
+		if failed && b.resume {
+			pResumed.Hit()
 		}
-		var expLog []exp
-		for k, s := range b.s2c {
-			for _, h := range b.expectedOrder(s.id) {
-				expLog = append(expLog, exp{h, k, s.bundle})
-			}
-		}
-		failed := b.failAt >= 0 && b.failAt < len(expLog)
-		if failed {
-			expLog = expLog[:b.failAt+1]
-		}
-		if !failed {
+		if !stopped {
 			// (after an injected handler failure the bot stops and closes the
 			// connection, so the remaining traffic legitimately fails)
 			if b.srvReadErr != nil {
@@ -1091,8 +1133,12 @@ func scenarioWorld(c *harness.Ctx) {
 			return
 		}
 		if failed {
-			if !errors.Is(b.gameErr, errHandler) {
-				c.Fail("gate.dispatch", "handlegame", "error-not-propagated", "%s: a handler failed at invocation %d but HandleGame returned %v", tag, b.failAt, b.gameErr)
+			first := b.gameErr
+			if b.resume {
+				first = b.handlerErr
+			}
+			if !errors.Is(first, errHandler) {
+				c.Fail("gate.dispatch", "handlegame", "error-not-propagated", "%s: a handler failed at invocation %d but HandleGame returned %v", tag, b.failAt, first)
 				return
 			}
 		}
@@ -1231,3 +1277,5 @@ var pStatusUnavailable = simrt.NewProbe("status.ping.entry.point.not.available(n
 var pClaimedUUID = simrt.NewProbe("bot.claims.a.profile.uuid.in.login-hello")
 
 var pHugePlay = simrt.NewProbe("play.packet.near.protocol.maximum.incompressible")
+
+var pResumed = simrt.NewProbe("bot.resumed.HandleGame.after.a.handler.error")
